@@ -51,6 +51,7 @@ def specs(draw, tier):
     if method == "droplets":
         spec["n"] = draw(st.integers(1, 6))
         spec["threshold"] = draw(st.sampled_from(["auto", "auto", "extrema", "mean", "otsu"]))
+        spec["shapes"] = draw(st.sampled_from(["round", "bars"])) if dim >= 2 else "round"
     if method == "peak-general":
         spec["kind"] = draw(st.sampled_from(["noise", "blob", "two-waves"]))
     return spec
@@ -67,20 +68,20 @@ class C17(Property):
     rule = (
         "Hypothesis draws a fully periodic Cartesian grid (dim 1-3, spacing exactly 1.0 or 10^U(-2.5,2.5), optionally anisotropic), a "
         "field and a transformation (stretch 10^U(-2,2), scaling of either sign, integer shift). Moment method: noise/blob/plane-wave "
-        "fields, three exact covariance relations. Droplet counting: rendered non-overlapping emulsions with automatic threshold rules, "
+        "fields, three exact covariance relations. Droplet counting: rendered non-overlapping emulsions, and binary images of elongated bars whose equal-volume spheres overlap, with automatic threshold rules, "
         "the three relations and l = (V_box/n)^(1/d). Peak method: plane waves with integer wave vectors resolved by >= 4 cells per "
         "period, random phase/amplitude/offset, default smoothing -> finite and within half a Fourier bin of |k0|; general fields with "
         "an explicitly supplied covariant smoothing width -> covariance within one Fourier bin. Non-trivial = spacing outside "
         "[0.3, 0.5] and != 1/32 (the spacings used by the test-suite) and a non-identity transformation; distinct = distinct spec hash."
     )
     assumptions = [
-        "droplet counting: n = 0 is not judged; translation invariance is judged only when no located droplet was removed by the locator's overlap filter (tie-breaking there depends on label order)",
+        "droplet counting: n = 0 is not judged; translation invariance is judged when no located droplet was removed by the locator's overlap filter, and for binary images of bars also when the filter removed something provided no decision of the greedy filter sits on a knife edge (tied volumes, sphere distance equal to the sum of the radii within 1e-9, winding components)",
         "peak method, general fields: judged only when the largest and second largest structure-factor values differ by > 1e-6 relative",
         "known finding F10 (default smoothing width not covariant) is recognised by re-running the failing call with smoothing = 1e-4 x 2 pi / L_max: if the property then holds, the case is attributed to F10",
     ]
 
     def budget(self, tier):
-        return {"examples": 6000 if tier == "quick" else 60000, "shards": 16}
+        return {"examples": 12000 if tier == "quick" else 100000, "shards": 16}
 
     def strategy(self, tier):
         return specs(tier)
@@ -139,6 +140,26 @@ class C17(Property):
                 return
             em = Emulsion([DiffuseDroplet(p, r, 0.8 * min(spacing)) for p, r in drops])
             data = spec["amp"] * (em.get_phasefield(grid).data + spec["offset"])
+            bars = spec.get("shapes") == "bars"
+            if bars:
+                # elongated, non-round clusters: their equal-volume spheres may overlap although the clusters do not touch, so
+                # the locator's overlap filter (which must use the periodic metric) decides the count
+                mask = np.zeros(shape, bool)
+                for _ in range(1 + spec["n"] // 2):
+                    ext = [int(rng.integers(1, max(2, n // 2))) for n in shape]
+                    thin = int(rng.integers(0, dim))
+                    ext[thin] = 1 + int(rng.integers(0, 2))
+                    lo = [int(rng.integers(0, n)) for n in shape]
+                    mask[np.ix_(*[np.arange(a, a + e) % n for a, e, n in zip(lo, ext, shape)])] = True
+                    if rng.random() < 0.7:  # a parallel, shorter partner one empty cell away: distinct clusters, overlapping spheres
+                        lo2, ext2 = list(lo), list(ext)
+                        lo2[thin] = lo[thin] + ext[thin] + 1
+                        ext2[thin] = 1
+                        long_ax = int(np.argmax(ext))
+                        ext2[long_ax] = max(1, ext[long_ax] - 1 - int(rng.integers(0, 3)))
+                        mask[np.ix_(*[np.arange(a, a + e) % n for a, e, n in zip(lo2, ext2, shape)])] = True
+                data = spec["amp"] * (mask.astype(float) + spec["offset"])
+                ctx.cls("bars")
             kw = {"threshold": spec["threshold"]}
             ctx.cls(f"thr:{spec['threshold']}")
             found = locate_droplets(ScalarField(grid, data), **kw)
@@ -156,9 +177,38 @@ class C17(Property):
             ctx.require(rel_ok(l2, l0, 1e-12), "droplets:scale", f"l({c} f) = {l2} != {l0}")
             # shift: judged when the locator's overlap filter did not remove anything
             t_mask = None
-            if spec["threshold"] in ("auto", "extrema"):
+            if bars and mask.any() and not mask.all():
+                t_mask = mask  # two-valued image with positive amplitude: every rule separates the two levels
+            elif spec["threshold"] in ("auto", "extrema"):
                 t_mask = data > (data.min() + data.max()) / 2
-            if t_mask is not None and len(O.components(t_mask, [True] * dim)) == n:
+            judge_shift = t_mask is not None and len(O.components(t_mask, [True] * dim)) == n
+            if t_mask is not None and not judge_shift and bars:
+                # the overlap filter removed something: the count is still translation invariant unless a decision of the greedy
+                # filter sits on a knife edge (tied volumes, a sphere distance equal to the sum of radii, a winding component)
+                comps = O.components(t_mask, [True] * dim)
+                cv = float(np.prod(spacing))
+                info = []
+                clean = True
+                for c in comps:
+                    if any(c["wind"]):
+                        clean = False
+                        break
+                    cells = np.array([np.array(i) + np.array(o) * np.array(shape) for i, o in c["cells"]], float)
+                    V = len(cells) * cv
+                    info.append((V, (cells.mean(axis=0) + 0.5) * np.array(spacing), O.sphere_radius_from_volume(V, dim)))
+                if clean:
+                    vols = sorted(v for v, _, _ in info)
+                    if any(b - a <= 1e-9 * b for a, b in zip(vols, vols[1:])):
+                        clean = False
+                    for i in range(len(info)):
+                        for j in range(i + 1, len(info)):
+                            gap = geom.dist(info[i][1], info[j][1]) - info[i][2] - info[j][2]
+                            if abs(gap) <= 1e-9 * float(L.max()):
+                                clean = False
+                judge_shift = clean
+                if clean:
+                    ctx.cls("shift-judged-with-overlap-filter")
+            if judge_shift:
                 l3 = get_length_scale(ScalarField(grid, np.roll(data, spec["shift"], tuple(range(dim)))), "droplet_detection", **kw)
                 ctx.require(rel_ok(l3, l0, 1e-12), "droplets:shift", f"l(roll f by {spec['shift']}) = {l3} != {l0} (n = {n})")
             else:
